@@ -3,7 +3,7 @@
     [bpe_decode tbl ids] = [de_tokenize(ids, true)] as bytes, [eff_table c] = the merge table after
     the [max_vocab_size] cut. No well-formedness of the table is needed. *)
 From TU Require Import Base BPE_Model C01_Model C02_Model C02_Inv C02_Loop C02_Proofs C02_Check C02_String
-  MsgPack_Model C02_File C02_FileProofs.
+  MsgPack_Model C02_File C02_FileProofs C02_Inj.
 From Coq Require Import Permutation.
 Open Scope N_scope.
 
@@ -37,6 +37,15 @@ Theorem bpe_lossless_string : forall c s, scalars s = true -> config_ok c = true
     Forall (fun id => id < vocab_size c) ids.
 Proof. exact bpe_lossless_string_l. Qed.
 Print Assumptions bpe_lossless_string.
+
+(** Lossless as injectivity, without mentioning the decoder: two texts with the same id sequence are equal
+    up to their trailing whitespace (which the tokenizer drops), for every table. *)
+Theorem bpe_tokenize_injective : forall c s t ids,
+  scalars s = true -> scalars t = true -> config_ok c = true ->
+  bpe_tokenize c s = Some ids -> bpe_tokenize c t = Some ids ->
+  strip_trailing_ws s = strip_trailing_ws t.
+Proof. exact bpe_tokenize_injective_l. Qed.
+Print Assumptions bpe_tokenize_injective.
 
 (** ... and exactly the text when it does not end in whitespace. *)
 Theorem bpe_lossless_string_exact : forall c s ids t ch, scalars s = true -> bpe_tokenize c s = Some ids ->
